@@ -270,9 +270,15 @@ def run(ctx):
     ctx.trusted += ["scipy.optimize.brentq (its result is compared with the model's closed-form crossing at 1e-6 relative)",
                     "stub material with rational laws in (T, vm^2) and (T, range^2); shipped Larson-Miller / fatigue laws are exercised by the oracle only",
                     "multiprocess.Pool.imap ordering (nthreads=1)"]
+    from harness import translators
+    ctx.trusted += ["translator harness/translators/lifeformulas.py (Python ast -> Gallina expressions and normalised source text)"]
+    translators.import_all()
+    ctx.gen("LifeFormulas", translators.REGISTRY["LifeFormulas"])
     ctx.prove("C01")
+    ctx.prove("C01_formulas")
     if ctx.tier == "thorough":
         ctx.coqchk("C01")
+        ctx.coqchk("C01_formulas")
     rng = ctx.rng
     cases = []
     for _ in range(ctx.budget(40, 200)):
